@@ -437,7 +437,8 @@ def resolve_diff_args(args):
         # Three or more
         if not is_gitref(base):
             paths = [base, remote] + paths
-            base = remote = None
+            base = 'HEAD'
+            remote = None
         elif is_gitref(base) and not is_gitref(remote):
             paths = [remote] + paths
             remote = None
